@@ -154,7 +154,53 @@ def h_recursion(ctx: Ctx, cfg):
     ctx.require(not again, "witness:symbol-derives-a-program-containing-itself", lambda: {"symbol": s.__name__, "program": OT.show(p)})
 
 
-HARNESSES = {"tables": h_tables, "usable": h_usable, "min_depth_lower_bound": h_min_depth_lower_bound, "min_depth_witness": h_min_depth_witness, "recursion": h_recursion}
+def h_shipped(ctx: Ctx, cfg):
+    """the grammars shipped in examples/, tests/ and geml/ (imported, not copied): productions,
+    minimum depths, recursive set and usable sub-grammar vs the oracle, for every discovered one"""
+    from geneticengine.grammar.grammar import extract_grammar
+
+    from vf.fixtures import shipped
+
+    def work():
+        found, skipped = shipped.discover(tuple(cfg["roots"]))
+        out = []
+        for label, classes, start in found:
+            try:
+                g = extract_grammar(list(classes), start)
+            except Exception as e:  # noqa
+                out.append((label, None, None, None, type(e).__name__))
+                continue
+            a = OG.Analysis(classes, start)
+            try:
+                u = g.usable_grammar()
+            except Exception as e:  # noqa
+                u = e
+            out.append((label, g, a, u, None))
+        return out, skipped
+
+    res, skipped = ctx.concrete(work)
+    ctx.note("grammars", len(res))
+    ctx.note("skipped", [s[0] for s in skipped])
+    ctx.require(len(res) >= cfg.get("at_least", 1), "oracle:no-shipped-grammar-discovered", {"skipped": skipped[:5]})
+    for label, g, a, u, err in res:
+        if g is None:
+            continue  # the example does not build a grammar on its own (e.g. needs runtime data)
+        ctx.reached()
+        for s in a.symbols:
+            if OT.is_abstract(s):
+                exp = sorted(c.__name__ for c in a.productions(s))
+                got = sorted(c.__name__ for c in g.alternatives.get(s, []))
+                ctx.require(exp == got, "analysis:productions-differ-from-direct-subtypes", {"grammar": label, "symbol": s.__name__, "reported": got, "expected": exp})
+            rd = g.distanceToTerminal.get(s)
+            ctx.require(rd == a.min_depth[s], "analysis:minimum-depth-differs-from-shallowest-derivation", {"grammar": label, "symbol": s.__name__, "reported": rd, "shallowest": a.min_depth[s]})
+            ctx.require((s in g.recursive_prods) == (s in a.recursive), "analysis:recursive-set-wrong", {"grammar": label, "symbol": s.__name__, "reported": s in g.recursive_prods})
+        ctx.require(not isinstance(u, Exception), "analysis:usable_grammar-raises", lambda: {"grammar": label, "error": type(u).__name__ + ": " + str(u)[:100]})
+        got = sorted(c.__name__ for c in u.all_nodes if isinstance(c, type) and c not in OT.BASE)
+        exp = sorted(c.__name__ for c in a.symbols)
+        ctx.require(got == exp, "analysis:usable_grammar-symbols-differ-from-reachable-set", {"grammar": label, "reported": got, "reachable": exp})
+
+
+HARNESSES = {"shipped": h_shipped, "tables": h_tables, "usable": h_usable, "min_depth_lower_bound": h_min_depth_lower_bound, "min_depth_witness": h_min_depth_witness, "recursion": h_recursion}
 
 CORPUS = [("f0", None), ("f1", None), ("f2", None), ("f2b", None), ("f3", None), ("f3b", None), ("f4", None), ("f5", None), ("f5ctx", None), ("f6", None),
           ("f7", "grammar_tuple"), ("f7", "grammar_union"), ("f7", "grammar_list"), ("f7", "grammar_mutual")]
@@ -171,6 +217,8 @@ def obligations(tier: str):
         obs.append(Ob("tables", dict(cfg), name=f"tables_{tag}", timeout=60, smoke=1))
         obs.append(Ob("usable", dict(cfg), name=f"usable_{tag}", timeout=60, smoke=1))
     obs.append(Ob("usable", {"fixture": "f4", "grammar_fn": "grammar_with_unreachable"}, name="usable_f4_drops_unreachable", timeout=60, smoke=1))
+    obs.append(Ob("shipped", {"roots": ["tests"], "at_least": 20}, name="tables_shipped_tests", timeout=200, smoke=0, twin=False))
+    obs.append(Ob("shipped", {"roots": ["examples", "geml"], "at_least": 10}, name="tables_shipped_examples", timeout=400, smoke=0, twin=False))
     # solver-backed inner quantifiers
     targets = [("f1", None, ["Expr", "Neg", "Plus"]), ("f3", None, ["Root", "U", "Pair"]), ("f4", None, ["Stmt", "Expr", "Ret"] + (["Seq"] if T else [])), ("f7", "grammar_tuple", ["Root", "ViaTuple"]), ("f7", "grammar_mutual", ["Root", "Other", "Ping"]), ("f2", None, ["Root", "Lst"])]
     for fxn, var, syms in targets:
